@@ -133,6 +133,39 @@ Definition source_rng (s : source) : range :=
   | SNil => norange
   end.
 
+(* an address, optionally followed by `allowing unbounded overdraft` / `allowing overdraft up to <expr>` *)
+Definition parse_account_source (fuel' : nat) (ts : list token) (bad : nat) : pres source :=
+            match parse_expr fuel' ts bad with
+            | Some (addr, ts1, bad1) =>
+                match ts1 with
+                | al :: ts2 =>
+                    if tk_is TAllowing al then
+                      match ts2 with
+                      | u :: o :: ts3 =>
+                          if tk_is TUnbounded u && tk_is TOverdraft o
+                          then Some (SOverdraft (span (expr_rng addr) (tok_range o)) addr None, ts3, bad1)
+                          else if tk_is TOverdraft u
+                          then match expect TUp (o :: ts3) with
+                               | Some (_, ts4) =>
+                                   match expect TTo ts4 with
+                                   | Some (_, ts5) =>
+                                       match parse_expr fuel' ts5 bad1 with
+                                       | Some (b, ts6, bad6) => Some (SOverdraft (span (expr_rng addr) (expr_rng b)) addr (Some b), ts6, bad6)
+                                       | None => None
+                                       end
+                                   | None => None
+                                   end
+                               | None => None
+                               end
+                          else None
+                      | _ => None
+                      end
+                    else Some (SAccount addr, ts1, bad1)
+                | [] => Some (SAccount addr, ts1, bad1)
+                end
+            | None => None
+            end.
+
 Fixpoint parse_source (fuel : nat) (ts : list token) (bad : nat) {struct fuel} : pres source :=
   match fuel with
   | O => None
@@ -184,37 +217,7 @@ Fixpoint parse_source (fuel : nat) (ts : list token) (bad : nat) {struct fuel} :
                 end
             | None => None
             end
-        | _ =>
-            match parse_expr fuel' ts bad with
-            | Some (addr, ts1, bad1) =>
-                match ts1 with
-                | al :: ts2 =>
-                    if tk_is TAllowing al then
-                      match ts2 with
-                      | u :: o :: ts3 =>
-                          if tk_is TUnbounded u && tk_is TOverdraft o
-                          then Some (SOverdraft (span (expr_rng addr) (tok_range o)) addr None, ts3, bad1)
-                          else if tk_is TOverdraft u
-                          then match expect TUp (o :: ts3) with
-                               | Some (_, ts4) =>
-                                   match expect TTo ts4 with
-                                   | Some (_, ts5) =>
-                                       match parse_expr fuel' ts5 bad1 with
-                                       | Some (b, ts6, bad6) => Some (SOverdraft (span (expr_rng addr) (expr_rng b)) addr (Some b), ts6, bad6)
-                                       | None => None
-                                       end
-                                   | None => None
-                                   end
-                               | None => None
-                               end
-                          else None
-                      | _ => None
-                      end
-                    else Some (SAccount addr, ts1, bad1)
-                | [] => Some (SAccount addr, ts1, bad1)
-                end
-            | None => None
-            end
+        | _ => parse_account_source fuel' ts bad
         end
     end
   end
